@@ -191,7 +191,13 @@ def reject_strategy(tier):
 def check_reuse(c):
     alg = c["alg"]
     h = guard(make, alg)
+    salg = ALGS[(ALGS.index(alg) + 1 + c.get("sib", 0)) % len(ALGS)] if c.get("sib") is not None else None
+    sib = guard(make, salg) if salg else None         # an object of another algorithm, built after h and used between its calls
     for i, entry in enumerate(c["msgs"]):
+        if sib is not None and i % 2 == 1:
+            sm = bytes(range(i, i + 70))
+            if guard(sib, sm) != R.digest(salg, sm, None):
+                raise Violation(alg + ":reused-object:sibling-object(%s)-digest!=standard" % salg, None, None)
         if entry[0] == "update":
             # streaming use of the same object between two one-shot calls (whole blocks without padding, or a
             # padded final piece); its result is not judged here, the next one-shot digest is
@@ -217,8 +223,8 @@ def reuse_strategy(tier):
             lambda t: (t[0], None if t[1] <= 1 or not t[0] else 8 * len(t[0]) - t[2] if t[1] == 2 else 8 * len(t[0]) + t[2]))
         upd = gen.pick((3, st.tuples(st.just("update"), gen.blob_of(st.sampled_from([B, 2 * B, 0])), st.just(False))),
                        (1, st.tuples(st.just("update"), gen.blob_of(gen.uint(0, B + 20)), st.just(True))))
-        return st.lists(gen.pick((3, msg), (1, upd)), min_size=2, max_size=4).map(
-            lambda l: {"alg": alg, "msgs": tuple(l) if len(l[-1]) == 2 else tuple(l) + ((b"abc", None),)})
+        return st.tuples(st.lists(gen.pick((3, msg), (1, upd)), min_size=2, max_size=4), st.sampled_from([None, 0, 3, 6])).map(
+            lambda t: {"alg": alg, "sib": t[1], "msgs": tuple(t[0]) if len(t[0][-1]) == 2 else tuple(t[0]) + ((b"abc", None),)})
     return st.sampled_from(ALGS).flatmap(for_alg)
 
 
@@ -242,9 +248,11 @@ FACETS = [
           nontrivial=lambda c: len(c["msgs"]) >= 2,
           classify=lambda c: (c["alg"],
                               "has rejected call" if any(len(e) == 2 and e[1] is not None and e[1] > 8 * len(e[0]) for e in c["msgs"]) else "no rejected call",
-                              "has streaming update" if any(len(e) == 3 for e in c["msgs"]) else "one-shot only"),
+                              "has streaming update" if any(len(e) == 3 for e in c["msgs"]) else "one-shot only",
+                              "sibling object of another algorithm" if c.get("sib") is not None else "no sibling"),
           rule="2..5 calls on ONE object: one-shot digests (byte and bit lengths, some with an over-long bit length that must be refused) "
-               "interleaved with streaming update() calls (whole blocks without padding, or a padded final piece); every one-shot digest is judged"),
+               "interleaved with streaming update() calls (whole blocks without padding, or a padded final piece); in 3 of 4 cases an object of another "
+               "algorithm is built after it and used in between; every one-shot digest is judged"),
     Facet("reject-bitlen", check_reject, strategy=reject_strategy, budget={"quick": 600, "thorough": 10000},
           nontrivial=lambda c: True, classify=lambda c: (c["alg"],),
           rule="L = 8|M| + d, d >= 1: an exception, never a digest"),
